@@ -1,0 +1,9 @@
+//go:build verif
+
+package protocol
+
+// Exports for the verification harness (/verif): whether the downloader of this protocol manager is
+// in a synchronisation right now (Downloader.Synchronising).
+
+// VerifSynchronising reports whether a synchronisation is running.
+func (pm *ProtocolManager) VerifSynchronising() bool { return pm.downloader.Synchronising() }
